@@ -32,10 +32,12 @@ def starts(line, prefix):
 
 
 def trust_ok(line):
+    """key validity at least marginal: the keywords are those of GnuPG's doc/DETAILS (TRUST_MARGINAL,
+    TRUST_FULLY, TRUST_ULTIMATE), taken from the statement of C05 and gpg's documentation, not from the code"""
     f = z3.Function('py_splitn_2', z3.StringSort(), z3.StringSort(), SeqB)
     tok = f(line, B_(b' '))[1]
     return z3.And(starts(line, b'[GNUPG:] TRUST_'),
-                  z3.Or(tok == B_(b'TRUST_MARGINAL'), tok == B_(b'TRUST_FULL'), tok == B_(b'TRUST_ULTIMATE')))
+                  z3.Or(tok == B_(b'TRUST_MARGINAL'), tok == B_(b'TRUST_FULLY'), tok == B_(b'TRUST_ULTIMATE')))
 
 
 def mkexists(name, pred):
